@@ -72,6 +72,7 @@ class Capture:
         self.inline_in = None         # (max score, [(id, universe, geom sexp)]) before inline_cells
         self.inline_out = None        # [(id, geom sexp)] after
         self.lattices = []            # one dict per develop_lattice call: inputs and the cells it created
+        self.pt_calls = []            # top-level cell_transform / pot_transform calls: {'request': sexp, 'expected': str}
         self.written = None           # what writeT4Geometry was handed: {'surfs': {id: (kind, params, tr)}, 'vols': {...}, 'skipped': [...]}
         self.error = None
 
@@ -259,6 +260,82 @@ def convert_capture(deck_text, args=()):
 
     patch(M, 'writeT4Geometry', mk_write)
 
+    # ---- pot_transform / cell_transform: every top-level call with the state it starts from and what it creates
+    ptd = {'depth': 0, 'tokens': {}, 'leaves': None}
+
+    def pt_tok(transform):
+        key = tuple(float(x) for x in transform)
+        return ptd['tokens'].setdefault(key, len(ptd['tokens']) + 1)
+
+    def pt_snapshot(self):
+        cells = ' '.join('(cell %d %s)' % (int(k), geom_sexp(c.geometry)) for k, c in self.dic_cell_mcnp.items())
+        cache = ' '.join('(e %d %d %d)' % (int(ck[0]), pt_tok(ck[1]), int(v))
+                         for ck, v in self.cell_transform_cache.items() if len(ck[1]))
+        return dict(ns=int(self.new_surf_key), nc=int(self.new_cell_key), cells=cells, cache=cache,
+                    keys=set(self.dic_cell_mcnp), cached=set(self.cell_transform_cache))
+
+    def pt_finish(self, snap, call, res_txt):
+        surfs = ' '.join('(s %d %d %s %d)' % (k, n, '-' if sub is None else str(sub), t) for k, n, sub, t in ptd['leaves'])
+        newc = ' '.join('(cell %d %s)' % (int(k), geom_sexp(c.geometry)) for k, c in self.dic_cell_mcnp.items()
+                        if k not in snap['keys'])
+        newcache = ' '.join('(e %d %d %d)' % (int(ck[0]), pt_tok(ck[1]), int(v))
+                            for ck, v in self.cell_transform_cache.items() if ck not in snap['cached'] and len(ck[1]))
+        cap.pt_calls.append({
+            'request': '(pt (ns %d) (nc %d) (cells %s) (cache %s) (call %s))' % (snap['ns'], snap['nc'], snap['cells'],
+                                                                               snap['cache'], call),
+            'expected': 'ok (res %s) (ns %d) (nc %d) (surfs %s) (cells %s) (cache %s)' % (
+                res_txt, int(self.new_surf_key), int(self.new_cell_key), surfs, newc, newcache)})
+
+    def mk_ct(orig):
+        def cell_transform(self, cell_key, transform, cache=True):
+            top = ptd['depth'] == 0 and len(transform) and len(cap.pt_calls) < 60
+            snap = None
+            if top:
+                try:
+                    snap = pt_snapshot(self)
+                    ptd['leaves'] = []
+                except Exception as e:  # noqa
+                    snap = None
+            ptd['depth'] += 1
+            try:
+                res = orig(self, cell_key, transform, cache=cache)
+            finally:
+                ptd['depth'] -= 1
+            if snap is not None:
+                try:
+                    pt_finish(self, snap, 'cell %d %d %d' % (int(cell_key), pt_tok(transform), 1 if cache else 0), '%d' % int(res))
+                except Exception as e:  # noqa
+                    cap.error = 'pottransform-encode: %r' % (e,)
+            return res
+        return cell_transform
+
+    def mk_pt(orig):
+        def pot_transform(self, p_tree, p_transf):
+            from MIP.geom.semantics import Surface
+            top = ptd['depth'] == 0 and p_transf is not None and len(p_transf) and len(cap.pt_calls) < 60
+            snap = None
+            if top:
+                try:
+                    snap = pt_snapshot(self)
+                    snap['tree'] = geom_sexp(p_tree)
+                    ptd['leaves'] = []
+                except Exception as e:  # noqa
+                    snap = None
+            ptd['depth'] += 1
+            try:
+                res = orig(self, p_tree, p_transf)
+            finally:
+                ptd['depth'] -= 1
+            if isinstance(p_tree, Surface) and p_transf is not None and len(p_transf) and ptd['leaves'] is not None:
+                ptd['leaves'].append((abs(int(res.surface)), abs(int(p_tree.surface)), p_tree.sub, pt_tok(p_transf)))
+            if snap is not None:
+                try:
+                    pt_finish(self, snap, 'tree %d %s' % (pt_tok(p_transf), snap['tree']), geom_sexp(res))
+                except Exception as e:  # noqa
+                    cap.error = 'pottransform-encode: %r' % (e,)
+            return res
+        return pot_transform
+
     import t4_geom_convert.Kernel.Volume.ConstructVolumeT4 as CVT
     patch(CVT, 'inline_cells', mk_inline)
 
@@ -267,6 +344,8 @@ def convert_capture(deck_text, args=()):
         cap.missing.append('CellConversion')
     else:
         patch(cls, 'develop_lattice', mk_lat)
+        patch(cls, 'cell_transform', mk_ct)
+        patch(cls, 'pot_transform', mk_pt)
         patch(cls, 'pot_complement', mk_compl)
         patch(cls, 'pot_convert', mk_conv)
     patch(WG, 'construct_volume_t4', mk_cv)
